@@ -1,50 +1,71 @@
 ------------------------------ MODULE HasStates ------------------------------
 (* C14, last sentence: "A module built on it reports a busy status from the start      *)
 (* request until the machine has finished and its final or stopped status afterwards." *)
-(* frappy/states.py HasStates (start_machine / stop_machine / state_transition /       *)
-(* final_status / cycle_machine), frappy/modules.py Drivable.isBusy.                   *)
+(* frappy/states.py HasStates (start_machine / stop_machine / stop command /           *)
+(* state_transition / final_status / on_cleanup, on_error / cycle_machine incl. fast   *)
+(* poll switching), frappy/modules.py Drivable.isBusy / isDriving.                     *)
 (*                                                                                     *)
 (* Requirement automaton over what can be observed at the module's boundary:           *)
-(*   Started             start_machine() has returned                                  *)
-(*   StopReq(act, st)    stop_machine(st) returned; act = machine was active           *)
+(*   Started(fast)       start_machine(fast_poll=fast) has returned                    *)
+(*   StopReq(act, st)    stop_machine(st) / the stop command returned; act = the       *)
+(*                       machine was active                                            *)
 (*   Final(st)           a state function called final_status(st) (and returns it)     *)
+(*   OnCleanup(kind, reason)  HasStates.on_cleanup dispatched to on_<kind> while the   *)
+(*                       machine's cleanup reason is of kind `reason`                  *)
 (*   Hook(to, task, reason)  the machine performs a transition (to = "none": the run   *)
 (*                       ends; task = kind of the request pending at that moment,      *)
 (*                       reason = kind of the machine's cleanup_reason)                *)
-(*   Update(busy,st,own) a status update is sent to the clients (own: by start_machine)*)
-(*   Quiet(act, pend, busy, st)  nothing is executing: machine active?, pending        *)
-(*                       request kind, the module's status                             *)
+(*   Update(code,st,own) a status update is sent to the clients (own: by start_machine)*)
+(*   Quiet(act, pend, code, st, fast)  nothing is executing: machine active?, pending  *)
+(*                       request kind, the module's status, fast polling on?           *)
 (* Status texts are not part of the property (the spec is silent on them) except that  *)
 (* the final / stopped status must be exactly the one given.                           *)
 EXTENDS Naturals, TLC
 
-CONSTANTS Statuses      \* abstract non-busy status values that may be given as final / stopped status
+CONSTANTS Statuses,     \* abstract status values (code:text) that may be given as final / stopped status
+          Codes         \* status codes explored by the design check
+
+(* the busy predicate of a drivable: code in [BUSY, ERROR); driving: [BUSY, FINALIZING) *)
+Busy(code) == code >= 300 /\ code < 400
+Driving(code) == code >= 300 /\ code < 390
+IsError(code) == code >= 400 /\ code < 500
 
 AnySt == "any"
 VARIABLES req,      \* a start was requested and the machine has not finished since: busy is due
           stopst,   \* stopped status given with the stop request in force
           finalst,  \* final status announced by the state function that just returned Finish
           ending,   \* a run has ended and cycle() has not yet gone on (window in which the pending request is taken)
-          fin       \* set of statuses allowed while the machine is inactive ({}: any non-busy status)
-hvars == <<req, stopst, finalst, fin, ending>>
+          fin,      \* set of statuses allowed while the machine is inactive ({}: any non-busy status)
+          errdue,   \* HasStates.on_error has just handled the failure of the run
+          finerr,   \* the run ended through on_error: an ERROR status is due while inactive
+          fastreq   \* a start request asked for fast polling and the machine has not finished since
+hvars == <<req, stopst, finalst, fin, ending, errdue, finerr, fastreq>>
 
-HInit == req = FALSE /\ stopst = AnySt /\ finalst = AnySt /\ fin = {} /\ ending = FALSE
+HInit == /\ req = FALSE /\ stopst = AnySt /\ finalst = AnySt /\ fin = {} /\ ending = FALSE
+         /\ errdue = FALSE /\ finerr = FALSE /\ fastreq = FALSE
 
-Started == req' = TRUE /\ ending' = FALSE /\ UNCHANGED <<stopst, finalst, fin>>
+Started(fast) == /\ req' = TRUE /\ ending' = FALSE /\ fastreq' = (fastreq \/ fast)
+                 /\ UNCHANGED <<stopst, finalst, fin, errdue, finerr>>
 
 (* a stop request accepted while a run is ending cancels a start it would hand over to *)
 (* (the machine finishes) and its stopped status becomes an admissible final status   *)
 StopReq(act, st) == /\ stopst' = IF act THEN st ELSE stopst
                     /\ IF act /\ ending
-                       THEN req' = FALSE /\ fin' = (IF fin = {} THEN {} ELSE fin \cup {st})
-                       ELSE UNCHANGED <<req, fin>>
-                    /\ UNCHANGED <<finalst, ending>>
+                       THEN /\ req' = FALSE /\ fastreq' = FALSE /\ finerr' = FALSE
+                            /\ fin' = (IF fin = {} THEN {} ELSE fin \cup {st})
+                       ELSE UNCHANGED <<req, fin, fastreq, finerr>>
+                    /\ UNCHANGED <<finalst, ending, errdue>>
 
-Final(st) == finalst' = st /\ UNCHANGED <<req, stopst, fin, ending>>
+Final(st) == finalst' = st /\ UNCHANGED <<req, stopst, fin, ending, errdue, finerr, fastreq>>
+
+(* the general cleanup dispatches on the kind of the cleanup reason *)
+OnCleanup(kind, reason) == /\ kind = reason
+                           /\ errdue' = (kind = "error")
+                           /\ UNCHANGED <<req, stopst, finalst, fin, ending, finerr, fastreq>>
 
 (* statuses the property determines for a run ending now: the final status announced   *)
 (* by the state function that returned Finish, the stopped status when a stop request   *)
-(* is in force; nothing determinate after an error or a plain Finish                    *)
+(* is in force; after an error only the class (ERROR, when on_error handled it)         *)
 Due(task, reason) == IF reason = "error" THEN {}
                      ELSE ({finalst} \cup (IF task = "stop" \/ reason = "stop" THEN {stopst} ELSE {})) \ {AnySt}
 
@@ -52,35 +73,46 @@ Hook(to, task, reason) ==
     IF to = "none"
     THEN \* the run ends here; the machine finishes unless a start request is pending
          /\ req' = (req /\ task = "start")
+         /\ fastreq' = (fastreq /\ task = "start")
          /\ fin' = Due(task, reason)
+         /\ finerr' = (errdue /\ reason = "error" /\ finalst = AnySt)
          /\ ending' = TRUE
-         /\ finalst' = AnySt /\ UNCHANGED stopst
-    ELSE /\ finalst' = AnySt /\ ending' = FALSE /\ UNCHANGED <<req, stopst, fin>>
+         /\ finalst' = AnySt /\ errdue' = FALSE /\ UNCHANGED stopst
+    ELSE /\ finalst' = AnySt /\ ending' = FALSE /\ errdue' = FALSE
+         /\ UNCHANGED <<req, stopst, fin, finerr, fastreq>>
 
 (* BusyWhileRunning, update stream: no non-busy update between start request and finish; *)
 (* own = the update is sent by start_machine() itself (the request is being made)       *)
-Update(busy, st, own) == /\ (req \/ own) => busy
-                    /\ UNCHANGED hvars
+Update(code, st, own) == /\ (req \/ own) => Busy(code)
+                         /\ UNCHANGED hvars
 
-(* BusyWhileRunning, state: busy iff the machine is active or about to start; the final *)
-(* or stopped status afterwards                                                         *)
-Quiet(act, pend, busy, st) ==
-    /\ ending' = FALSE /\ UNCHANGED <<req, stopst, finalst, fin>>
-    /\ (act \/ pend = "start") => (busy /\ req)
-    /\ ~(act \/ pend = "start") => (~busy /\ ~req /\ (fin = {} \/ st \in fin))
+(* BusyWhileRunning, state: busy iff the machine is active or about to start, polling    *)
+(* fast when asked for; afterwards the final / stopped / error status and normal polling *)
+Quiet(act, pend, code, st, fast) ==
+    /\ ending' = FALSE /\ UNCHANGED <<req, stopst, finalst, fin, errdue, finerr, fastreq>>
+    /\ (act \/ pend = "start") => (Busy(code) /\ req /\ (fastreq => fast))
+    /\ ~(act \/ pend = "start") => (/\ ~Busy(code) /\ ~req /\ ~fast
+                                    /\ (fin = {} \/ st \in fin)
+                                    /\ (finerr => IsError(code)))
 
-HNext == \/ Started
+HNext == \/ \E fast \in BOOLEAN : Started(fast)
          \/ \E act \in BOOLEAN, st \in Statuses : StopReq(act, st)
          \/ \E st \in Statuses : Final(st)
+         \/ \E kind \in {"start", "stop", "error"} : OnCleanup(kind, kind)
          \/ \E to \in {"none", "s"}, task \in {"none", "start", "stop"}, reason \in {"none", "start", "stop", "error"} :
                Hook(to, task, reason)
-         \/ \E busy \in BOOLEAN, st \in Statuses, own \in BOOLEAN : Update(busy, st, own)
-         \/ \E act \in BOOLEAN, pend \in {"none", "start", "stop"}, busy \in BOOLEAN, st \in Statuses :
-               Quiet(act, pend, busy, st)
+         \/ \E code \in Codes, st \in Statuses, own \in BOOLEAN : Update(code, st, own)
+         \/ \E act \in BOOLEAN, pend \in {"none", "start", "stop"}, code \in Codes, st \in Statuses, fast \in BOOLEAN :
+               Quiet(act, pend, code, st, fast)
 HSpec == HInit /\ [][HNext]_hvars
 
-HTypeOK == req \in BOOLEAN /\ {stopst, finalst} \subseteq Statuses \cup {AnySt} /\ fin \subseteq Statuses
+HTypeOK == /\ {req, ending, errdue, finerr, fastreq} \subseteq BOOLEAN
+           /\ {stopst, finalst} \subseteq Statuses \cup {AnySt} /\ fin \subseteq Statuses
 (* the requirement is only lifted at a finish and only raised by a start request *)
 ReqDiscipline == [][/\ (req /\ ~req') => (ending' /\ fin' \subseteq fin \cup {stopst', finalst})
-                    /\ (~req /\ req') => UNCHANGED <<stopst, finalst, fin>>]_hvars
+                    /\ (~req /\ req') => UNCHANGED <<stopst, finalst, fin>>
+                    /\ (fastreq' /\ ~fastreq) => req']_hvars
+(* fast polling is only demanded while busy is demanded; an error status only after on_error *)
+FastOnlyWhileRunning == fastreq => req
+ErrOnlyAfterOnError == [][(finerr' /\ ~finerr) => errdue]_hvars
 =============================================================================
